@@ -49,6 +49,15 @@ check("C02",
       "Coq proof + extracted-model correspondence + implementation round-trip oracle",
       "DESIGN.md 5 C02")
 
+check("C15",
+      "Coq theorems over an executable model of the HD61202 pair (chip-select decoding, instruction register, data write/read with the buffered-read column, status, both controllers, both display stitchings): "
+      "state invariant for every reachable state (induction over any access sequence), the command-protocol laws (exactly one VRAM cell changes per data write, counter arithmetic, status bits, frame between chips), "
+      "Python and Rust controllers observationally equal for access sequences of any length whose writes go to write addresses, and the pixel map: 7680 visible pixels enumerated completely in the kernel (left inverse), "
+      "each pixel one VRAM bit, a cell's pixels lie in one display column. Tied to HD61202Controller and LcdController by a correspondence run.",
+      "Trusted: Coq kernel, extraction, harness drivers. Modelled not verified: hd61202.py/pipeline.py/controller_wrapper.py and lcd.rs chip+controller+copy_region. Known findings: Rust executes writes sent to READ addresses; display buffers differ (on/off, start line). A CS=BOTH data write changes one cell in each chip (theorem is per chip).",
+      "Coq proof (induction + vm_compute over the complete pixel map) + extracted-model correspondence vs Python and Rust",
+      "DESIGN.md 5 C15")
+
 NOT_APPLICABLE = {}
 
 def build():
